@@ -22,7 +22,8 @@ RULE = ('fault enumeration over the recorded step trace of the single-process an
         '3 library sizes: every (process, step, occurrence, before/after) x {raise, _exit, SIGKILL} in the thorough tier, a seeded subset in the '
         'quick tier. Steps: write_status, k-th molecule written, add_readgroups_to_header, replace_bam_header, pysam.sort, pysam.index, '
         'pysam.merge, os.rename, os.remove, shutil.move, shutil.rmtree, merge_bams, per-job run_tagging_tasks in the workers. '
-        'Non-trivial = injected run in which the fault actually fired; distinct = distinct (configuration, fault point, kind).')
+        'Non-trivial = injected run in which the fault actually fired; distinct = distinct (configuration, fault point, kind).'
+        ' Plus persistent faults (every attempt of a step fails), exception classes RuntimeError / OSError / ValueError / MemoryError, and runs over the copied output (BAM, index, success marker) of an earlier run with faults in the set-up phase.')
 ASSUMPTIONS = ['failpoints sit at python-level step boundaries; a crash inside one htslib call is not split further',
                'a hung pool after a dead worker is killed by the watchdog and judged on the files it left (no liveness claim)',
                'the clean run must report success, otherwise the case is inconclusive']
